@@ -69,7 +69,8 @@ for d in sorted(glob.glob(os.path.join(here, 'seeded', '*', 'meta.json'))):
     m = json.load(open(d)); sid = os.path.basename(os.path.dirname(d))
     caught = ('yes (%d replay%s)' % (m['violation_lines'] - m['no_failing_input_found_lines'], '' if m['violation_lines'] - m['no_failing_input_found_lines'] == 1 else 's')
               if m['detected_by_quick_check'] and m['violation_lines'] > m['no_failing_input_found_lines']
-              else ('yes, no-failing-input-found' if m['detected_by_quick_check'] else '**no**'))
+              else ('yes, no-failing-input-found' if m['detected_by_quick_check'] else
+                    ('thorough tier only (%d replay%s)' % (m['violation_lines'] - m['no_failing_input_found_lines'], '' if m['violation_lines'] - m['no_failing_input_found_lines'] == 1 else 's') if m.get('detected_by_thorough_check') else '**no**')))
     out.append('| %s | %s | %s | %s | %s | %s |' % (sid, m['property'], m['needs_to_manifest'].replace('|', '\\|'), caught,
                (m.get('first_violation') or '').strip().replace('|', '\\|').replace('\n', ' ')[:160], notes.get(sid, '')))
 out.append('')
